@@ -272,6 +272,11 @@ func TestCheck(t *testing.T) {
 			}
 			if errors.As(err, &ve) {
 				run.HarnessError("kernel verifier rejects dhcp_fastpath (C03's business): " + err.Error())
+			} else if len(envs) > 0 && envs[0].has() {
+				// a later worker's maps could not be created (resource limits while other checks use BPF too):
+				// go on with the workers that exist - fewer workers, same cases
+				fmt.Printf("note: only %d of %d kernel-map environments could be created: %v\n", len(envs), nenv, err)
+				break
 			} else {
 				run.HarnessError("cannot set up kernel maps: " + err.Error())
 			}
